@@ -102,10 +102,11 @@ def to_encoding(x, enc):
 
 
 def write_h5ad(path, x, cells, genes, enc='csr', layer=None, obs_cols=None, var_cols=None,
-               uns=None, rechunk=None, x_placeholder=None):
-    """write an h5ad; the matrix goes to X or to layers/<layer> (X then holds a placeholder)"""
-    obs = pd.DataFrame(obs_cols or {}, index=pd.Index([str(c) for c in cells]))
-    var = pd.DataFrame(var_cols or {}, index=pd.Index([str(g) for g in genes]))
+               uns=None, rechunk=None, x_placeholder=None, obs_index_name=None, var_index_name=None):
+    """write an h5ad; the matrix goes to X or to layers/<layer> (X then holds a placeholder);
+    a named obs / var index is stored by anndata under that name (not as '_index')"""
+    obs = pd.DataFrame(obs_cols or {}, index=pd.Index([str(c) for c in cells], name=obs_index_name))
+    var = pd.DataFrame(var_cols or {}, index=pd.Index([str(g) for g in genes], name=var_index_name))
     m = to_encoding(x, enc)
     if layer is None:
         a = anndata.AnnData(X=m, obs=obs, var=var, uns=uns)
@@ -174,7 +175,8 @@ def retype_index_arrays(path, dtype, layer=None):
 def write_query(path, q):
     x = expand_query(q)
     write_h5ad(path, x, q['cells'], q['genes'], enc=q.get('enc', 'csr'),
-               layer=q.get('layer'), rechunk=q.get('rechunk'))
+               layer=q.get('layer'), rechunk=q.get('rechunk'),
+               obs_index_name=q.get('obs_index_name'), var_index_name=q.get('var_index_name'))
     if q.get('idx_dtype') and q.get('enc', 'csr') != 'dense':
         retype_index_arrays(path, q['idx_dtype'], q.get('layer'))
     return path
